@@ -14,7 +14,10 @@ Case recipe (JSON)
  "lab": 0..3                    how the integer labels are turned into hashables (ints, strs, tuples, mixed)
  "inputs": [[0,1],[1,2]], "output": [0,2], "sizes": [2,3,1]   size of label i
  "types": [type, ...]           algebraic index type of each label (see below)
- "ops": [tensor recipe of vf.bounded.gen_pt, ...]}
+ "ops": [tensor recipe of vf.bounded.gen_pt, ...]      a recipe may carry "bcast": [pool axis, ...]: those physical axes
+                                                    are stride-0 (expanded) views; "data" is then constant along them
+ "feed": bool                   also feed the returned tensor back into einsum (transposition and total sum)
+ "fam": "B" | "E"               generator family of the case (part of the failure key only)}
 
 Well-typedness (precondition of the property: "every list of well-typed patterned tensors")
 -------------------------------------------------------------------------------------------
@@ -251,6 +254,9 @@ def make_operand_recipe(pat, sr, dtype, default, rng) -> Dict[str, Any]:
 
 def build_operands(case):
     ops = [G.build_pt(r) for r in case["ops"]]
+    for i, r in enumerate(case["ops"]):
+        if r.get("bcast"):
+            ops[i] = with_stride0_axes(ops[i], r)
     for i, j in enumerate(case.get("alias") or []):
         # alias[i] = j < i: operand i is the same object as operand j ("same"), or another tensor over
         # the very same PhysicalAxis objects with its own data ("axes")
@@ -264,6 +270,36 @@ def build_operands(case):
         for t in ops:
             t.physical.requires_grad_(True)
     return ops
+
+
+def apply_bcast(r: Dict[str, Any], axes) -> Dict[str, Any]:
+    """make the physical axes `axes` (numbers into r["pool"]) of a contiguous/transposed recipe stride-0: the
+       full row-major "data" is made constant along them (so that gen_pt.dense_oracle, which knows nothing about
+       "bcast", still denotes the operand) and build_operands re-creates the physical tensor as an expanded view"""
+    pool = r["pool"]
+    axes = sorted(a for a in set(axes) if pool[a] >= 2)
+    if not axes or r["storage"] not in ("contig", "transposed"):
+        return r
+    st = strides_of(pool)
+    data, new = r["data"], []
+    for p in itertools.product(*[range(k) for k in pool]):
+        new.append(data[sum((0 if i in axes else v) * s for i, (v, s) in enumerate(zip(p, st)))])
+    r["data"] = new
+    r["bcast"] = axes
+    return r
+
+
+def with_stride0_axes(t, r):
+    """the same patterned tensor over an expanded physical view: stride 0 on the axes r["bcast"]"""
+    from fggs.indices import PatternedTensor
+    b = set(r["bcast"])
+    if len(t.paxes) != len(r["pool"]):
+        raise ValueError("bcast recipe: physical axes were renumbered")
+    idx = tuple(slice(0, 1) if a in b else slice(None) for a in range(len(r["pool"])))
+    ph = t.physical[idx].expand(t.physical.size())
+    if not G.same(ph, t.physical) or any(ph.stride()[a] != 0 for a in b):
+        raise ValueError("bcast recipe: data is not constant along the stride-0 axes")
+    return PatternedTensor(ph, t.paxes, t.vaxes, t.default)
 
 
 def snapshot_ops(ops):
@@ -415,6 +451,44 @@ def run_case(case) -> List[Tuple[str, str, str]]:
                     f"observed {fmt(got)}; expected {fmt(want)} (first differing flat cell {i}: {got[i]!r} vs {want[i]!r})"))
     if fn == "viterbi":
         out += check_pointers(case, ptr_t, oshape, got, want, summed, table, rtol, atol)
+    if case.get("feed") and not out:
+        out += check_feed(case, res, want, oshape, S, output, rtol, atol)
+    return out
+
+
+def check_feed(case, res, want, oshape, S, output, rtol, atol):
+    """operation sequence: the returned PatternedTensor (whose physical tensor is typically an expanded view
+       or empty) is itself a well-typed operand: einsum([res], [output], reversed(output)) is its transposition
+       and einsum([res], [output], []) its semiring total.  Expected values come from the brute-force `want`."""
+    import fggs.indices as I
+    sr = case["sr"]
+    n = len(oshape)
+    rev = list(reversed(output))
+    st = strides_of(oshape)
+    want_rev = []
+    for c in itertools.product(*[range(k) for k in reversed(oshape)]):
+        want_rev.append(want[sum(v * s for v, s in zip(reversed(c), st))])
+    want_tot = [s_sum(sr, want)]
+    out = []
+    for name, o, w, shp in (("transpose", rev, want_rev, tuple(reversed(oshape))), ("total", [], want_tot, ())):
+        try:
+            with warnings.catch_warnings(), torch.no_grad(), time_limit():
+                warnings.simplefilter("ignore")
+                g_t = I.einsum([res], [list(output)], o, S).to_dense().detach()
+        except Exception as e:
+            msg = str(e).splitlines()[0][:160] if str(e) else ""
+            out.append(("feed." + name, f"feed-raises-{type(e).__name__}",
+                        f"einsum of the returned tensor ({list(output)} -> {o}) observed {type(e).__name__}: {msg}; expected {fmt(w)}"))
+            continue
+        if tuple(g_t.size()) != shp:
+            out.append(("feed." + name, "feed-shape", f"einsum of the returned tensor ({list(output)} -> {o}): observed shape "
+                        f"{list(g_t.size())}; expected {list(shp)}"))
+            continue
+        g = g_t.reshape(-1).tolist()
+        bad = [i for i, (a, b) in enumerate(zip(g, w)) if not close(a, b, rtol, atol)]
+        if bad:
+            out.append(("feed." + name, "feed-value", f"einsum of the returned tensor ({list(output)} -> {o}): observed {fmt(g)}; "
+                        f"expected {fmt(w)}"))
     return out
 
 
@@ -523,7 +597,10 @@ def nonzero_defaults(sr):
     return [0.0, math.log(2.0), "inf"]
 
 
-def gen_case(fn, sr, dtype, rg, inputs, output, sizes, rng: random.Random, tier: str, lab: int) -> Dict[str, Any]:
+def gen_case(fn, sr, dtype, rg, inputs, output, sizes, rng: random.Random, tier: str, lab: int,
+             family: Optional[str] = None) -> Dict[str, Any]:
+    """family "B": the same draw, but every operand is stored contiguously / transposed and then a drawn subset
+       of its physical axes (all of them with probability 1/2) is turned into stride-0 expanded views"""
     types = pick_types(sizes, rng)
     zero = G.enc(s_zero(sr)) if sr != "Bool" else False
     ops = []
@@ -542,10 +619,134 @@ def gen_case(fn, sr, dtype, rg, inputs, output, sizes, rng: random.Random, tier:
         if not pats:
             pats = [G._dense_pattern(tuple(ty_size(t) for t in tys))]
         pat = rng.choice(pats)
+        if family == "B":
+            if rng.random() < 0.4:
+                pat = G._dense_pattern(tuple(ty_size(t) for t in tys))
+            pat = dict(pat)
+            if pat.get("storage") == "expanded":
+                pat["storage"] = "contig"
+            rec = make_operand_recipe(pat, sr, dtype, default, rng)
+            ops.append(apply_bcast(rec, draw_stride0_axes(rec["pool"], rng)))
+            continue
         ops.append(make_operand_recipe(pat, sr, dtype, default, rng))
-    return {"fn": fn, "sr": sr, "dtype": dtype, "rg": bool(rg), "lab": lab,
+    case = {"fn": fn, "sr": sr, "dtype": dtype, "rg": bool(rg), "lab": lab,
             "inputs": [list(i) for i in inputs], "output": list(output), "sizes": list(sizes),
             "types": types, "ops": ops}
+    if family:
+        case["fam"] = family
+        case["feed"] = True
+    return case
+
+
+def draw_stride0_axes(pool, rng: random.Random) -> List[int]:
+    cand = [a for a, n in enumerate(pool) if n >= 2]
+    if rng.random() < 0.5:
+        return cand
+    return [a for a in cand if rng.random() < 0.5]
+
+
+# ----------------------------------------------------------------------------- family E: sum types with an empty summand
+# A label whose index type is a sum with an *empty* summand (2 + 0 + 1, 0 + 3, (0 x 2) + 1 ...) can be indexed
+# through the axis of that empty summand: SumAxis(2, PhysicalAxis(0), 1).  Such an operand has an empty
+# physical tensor although its virtual shape is not empty; it denotes the all-zero tensor.
+ZERO_SUMMANDS = [["n", 0], ["*", [["n", 0], ["n", 2]]], ["*", [["n", 2], ["n", 0]]]]
+_ETYPES_CACHE: Dict[int, List[Any]] = {}
+_CHOICES_CACHE: Dict[str, List[Any]] = {}
+
+
+def compositions(n: int):
+    if n == 0:
+        yield []
+        return
+    for first in range(1, n + 1):
+        for rest in compositions(n - first):
+            yield [first] + rest
+
+
+def empty_summand_types(n: int) -> List[Any]:
+    """every ordered sum decomposition of n (the one-part decomposition included) with one empty summand
+       (atomic 0, 0 x 2 or 2 x 0) inserted at every position; for n = 0 also 0 + 0"""
+    if n not in _ETYPES_CACHE:
+        out = []
+        for c in compositions(n):
+            for pos in range(len(c) + 1):
+                for z in ZERO_SUMMANDS:
+                    parts = [["n", p] for p in c]
+                    out.append(["+", parts[:pos] + [z] + parts[pos:]])
+        if n == 0:
+            out.append(["+", [["n", 0], ["n", 0]]])
+        _ETYPES_CACHE[n] = out
+    return _ETYPES_CACHE[n]
+
+
+def axis_choices(ty) -> List[Tuple[Any, List[int]]]:
+    """axes (with their own pool, numbered from 0) that conform to `ty` by construction: the dense axis, the product
+       of the dense axes of the factors of a product type, and for a sum type the block of each summand"""
+    key = canon(ty)
+    if key in _CHOICES_CACHE:
+        return _CHOICES_CACHE[key]
+    n = ty_size(ty)
+    out: List[Tuple[Any, List[int]]] = [(["*", []], [])] if n == 1 else [(["P", 0], [n])]
+    if ty[0] == "*" and all(ty_size(t) != 1 for t in ty[1]):
+        out.append((["*", [["P", i] for i in range(len(ty[1]))]], [ty_size(t) for t in ty[1]]))
+    elif ty[0] == "+":
+        off = 0
+        for t in ty[1]:
+            m = ty_size(t)
+            for ax, pl in axis_choices(t):
+                out.append((["+", off, ax, n - off - m], pl))
+            off += m
+    seen, res = set(), []
+    for ax, pl in out:
+        k = canon([ax, pl])
+        if k not in seen:
+            seen.add(k); res.append((ax, pl))
+    _CHOICES_CACHE[key] = res
+    return res
+
+
+def shift_axis(a, by: int):
+    if a[0] == "P": return ["P", a[1] + by]
+    if a[0] == "*": return ["*", [shift_axis(f, by) for f in a[1]]]
+    return ["+", a[1], shift_axis(a[2], by), a[3]]
+
+
+def gen_case_empty(fn, sr, dtype, rg, inputs, output, rng: random.Random, lab: int) -> Optional[Dict[str, Any]]:
+    labels = label_order(inputs)
+    if not labels:
+        return None
+    k = max(labels) + 1
+    sizes = [rng.choice((1, 2, 3)) for _ in range(k)]
+    e = rng.choice(labels)
+    sizes[e] = rng.choice((0, 1, 2, 2, 3, 3))
+    std = pick_types(sizes, rng)
+    types = [rng.choice(empty_summand_types(sizes[l])) if (l == e or rng.random() < 0.25) else std[l] for l in range(k)]
+    occ = [(i, j) for i, inp in enumerate(inputs) for j, l in enumerate(inp) if l == e]
+    forced = rng.choice(occ)                                  # this occurrence goes through an empty block
+    zero = G.enc(s_zero(sr)) if sr != "Bool" else False
+    ops = []
+    for i, inp in enumerate(inputs):
+        chosen = []
+        for j, l in enumerate(inp):
+            ch = axis_choices(types[l])
+            if (i, j) == forced:
+                ch = [c for c in ch if 0 in c[1]]
+            elif rng.random() < 0.35:
+                ch = ch[:1]                                   # the dense axis
+            chosen.append(rng.choice(ch))
+        pool: List[int] = []
+        vaxes = []
+        for ax, pl in chosen:
+            vaxes.append(shift_axis(ax, len(pool))); pool += pl
+        pat = {"pool": pool, "vaxes": vaxes, "storage": "contig"}
+        default = zero if rng.random() < 0.85 else rng.choice(nonzero_defaults(sr))
+        rec = make_operand_recipe(pat, sr, dtype, default, rng)
+        if rng.random() < 0.3:
+            rec = apply_bcast(rec, draw_stride0_axes(rec["pool"], rng))
+        ops.append(rec)
+    return {"fn": fn, "sr": sr, "dtype": dtype, "rg": bool(rg), "lab": lab,
+            "inputs": [list(i) for i in inputs], "output": list(output), "sizes": sizes,
+            "types": types, "ops": ops, "fam": "E", "feed": True}
 
 
 def pairwise_compatible(case) -> bool:
@@ -635,7 +836,21 @@ def unit_cases(unit, seed: int, tier: str):
         yield from directed_cases(unit, seed, tier)
         return
     rng = random.Random(int(hashlib.sha256(f"{seed}:C07:{uid}".encode()).hexdigest()[:16], 16))
+    if fn.startswith("E:"):                                   # a label of sum type with an empty summand
+        for i in range(ndraws):
+            case = gen_case_empty(fn[2:], sr, dtype, rg, inputs, output, rng, lab=(uid + i) % 4 if fn[2:] in ("einsum", "viterbi") else 1)
+            if case is not None:
+                yield case
+        return
     k = n_labels(inputs)
+    if fn.startswith("B:"):                                   # stride-0 physical axes at any position
+        fn = fn[2:]
+        if fn in ("mv", "mm"):
+            k = 2 if fn == "mv" else 3
+        for i, sizes in enumerate(size_assignments(k, rng, ndraws, zero=(uid % 5 == 0))):
+            yield gen_case(fn, sr, dtype, rg, inputs, output, sizes, rng, tier,
+                           lab=(uid + i) % 4 if fn in ("einsum", "viterbi") else 1, family="B")
+        return
     if fn in ("mv", "mm"):
         k = 2 if fn == "mv" else 3
     if fn == "einsum4":                                       # one label of size 4 or 6 (product / longer sum types)
@@ -711,6 +926,25 @@ def _warm(key):
     return G.patterns_for_shape(key[0], key[1])
 
 
+def has_zero_size_product(a, pool) -> bool:
+    """the axis contains a ProductAxis with >= 2 factors and no elements"""
+    if a[0] == "P": return False
+    if a[0] == "+": return has_zero_size_product(a[2], pool)
+    return (len(a[1]) >= 2 and G.ax_numel(a, pool) == 0) or any(has_zero_size_product(f, pool) for f in a[1])
+
+
+def recorded_zero_size_product_class(f) -> bool:
+    """The finding recorded as PT-zero-size-axis (known_findings.json) is: unification treats an empty *product* as
+       unified without unifying its factors, and project then raises ValueError / RecursionError.  Only a failure
+       with that symptom on an input that has such a product is tagged "zero-size-axis" in its key; the one-line
+       description writes pools as pool=(0, 2), which the finding's pattern does not match, so that no other
+       failure (another exception, a wrong value or shape) on an input with a zero-size physical axis is
+       taken for the recorded one."""
+    if f["keyclass"] not in ("raises-ValueError", "raises-RecursionError"):
+        return False
+    return any(has_zero_size_product(a, r["pool"]) for r in f["case"]["ops"] for a in r["vaxes"])
+
+
 def fail_key(f) -> str:
     c = f["case"]
     k = f"{c['fn']}:{f['keyclass']}"
@@ -718,12 +952,17 @@ def fail_key(f) -> str:
         k += ":" + features_of(c)
     if f["keyclass"].startswith("value"):
         k += ":" + c["sr"]
+    if c.get("fam"):
+        k += ":family-" + c["fam"]
+    if recorded_zero_size_product_class(f):
+        k += ":zero-size-axis"
     return k
 
 
 def fail_what(f) -> str:
     c = f["case"]
-    ops = "; ".join(f"{r['vaxes']}/pool{r['pool']}/{r['storage']}/default={r['default']}" for r in c["ops"])
+    ops = "; ".join(f"{r['vaxes']}/pool=({', '.join(map(str, r['pool']))})/{r['storage']}"
+                    + (f"+stride0{r['bcast']}" if r.get("bcast") else "") + f"/default={r['default']}" for r in c["ops"])
     return (f"{c['fn']} {c['sr']}/{c['dtype']} rg={int(c['rg'])} inputs={c['inputs']} -> {c['output']} sizes={c['sizes']} "
             f"operands: {ops}")[:400]
 
@@ -822,7 +1061,71 @@ def build_units(ctx: Ctx) -> Tuple[List[Any], Dict[str, Any]]:
         for sr, dt, rg in combos(rep % 2 == 0):
             units.append(("mv", sr, dt, rg, [[0, 1], [1]], [0], 9, uid)); uid += 1
             units.append(("mm", sr, dt, rg, [[0, 1], [1, 2]], [0, 2], 27, uid)); uid += 1
+    # (new families are appended after all older units: a unit's cases depend on its uid only)
+    # --- family B: stride-0 (expanded) physical axes at any position of any operand, as produced by einsum itself
+    #     (zero results, re-expanded reductions) and consumed again by sum_product.  With requires_grad off and no
+    #     summed-out physical axis this is the path that strips the stride-0 dimensions and re-inserts them.
+    nB = 0
+    nop = 0
+    for inputs in sigs_small:
+        k = n_labels(inputs)
+        if k == 0: continue
+        for output in all_outputs(k):
+            if len(output) == k:                               # no summed-out label
+                for sr, dt, rg in [c for c in combos(False) if not c[2]]:
+                    units.append(("B:einsum", sr, dt, rg, inputs, output, (4 if th else (2 if sr in ("Real", "Log") else 1)), uid)); uid += 1; nB += 1
+                sr, dt, rg = [c for c in combos(False) if c[2]][nop % 3]
+                units.append(("B:einsum", sr, dt, rg, inputs, output, (2 if th else 1), uid)); uid += 1; nB += 1
+                units.append(("B:viterbi", "Viterbi", "float64", bool(nop % 4 == 3), inputs, output, (4 if th else 2), uid)); uid += 1; nB += 1
+            else:
+                cs = combos(False)
+                sr, dt, rg = cs[nop % len(cs)]
+                units.append(("B:einsum", sr, dt, rg, inputs, output, (3 if th else 1), uid)); uid += 1; nB += 1
+                if nop % 4 == 0:
+                    units.append(("B:viterbi", "Viterbi", "float64", bool(nop % 8 == 0), inputs, output, 1, uid)); uid += 1; nB += 1
+            nop += 1
+    big3 = [s for s in enum_inputs(3, 3, min_ops=3, max_rank=2) if n_labels(s) >= 1]
+    for inputs in (big3 if th else rng.sample(big3, 150)):
+        k = n_labels(inputs)
+        perms = [o for o in all_outputs(k) if len(o) == k]
+        for output in (perms if th else [rng.choice(perms)]):
+            sr, dt, rg = rng.choice([c for c in combos(False) if not c[2]])
+            units.append(("B:einsum", sr, dt, rg, inputs, output, 2, uid)); uid += 1; nB += 1
+        units.append(("B:viterbi", "Viterbi", "float64", False, inputs, rng.choice(perms), 1, uid)); uid += 1; nB += 1
+    for rep in range(6 if th else 2):
+        for sr, dt, rg in combos(False):
+            units.append(("B:mv", sr, dt, rg, [[0, 1], [1]], [0], 9, uid)); uid += 1; nB += 1
+            units.append(("B:mm", sr, dt, rg, [[0, 1], [1, 2]], [0, 2], 12, uid)); uid += 1; nB += 1
+    info["family B units (stride-0 physical axes anywhere; result fed back into einsum)"] = nB
+    # --- family E: a label of sum type with an empty summand, indexed through the (physically empty) block of it
+    nE = 0
+    sigsE = [s for s in enum_inputs(2, 2, max_rank=2) if n_labels(s) >= 1]
+    for inputs in sigsE:
+        for output in all_outputs(n_labels(inputs)):
+            for sr, dt, rg in combos(False):
+                units.append(("E:einsum", sr, dt, rg, inputs, output, (8 if th else 3), uid)); uid += 1; nE += 1
+            for rg in (False, True):
+                units.append(("E:viterbi", "Viterbi", "float64", rg, inputs, output, (6 if th else 2), uid)); uid += 1; nE += 1
+    for inputs in (big3 if th else rng.sample(big3, 120)):
+        outs = all_outputs(n_labels(inputs))
+        for output in (outs if th else [rng.choice(outs)]):
+            sr, dt, rg = rng.choice(combos(False))
+            units.append(("E:einsum", sr, dt, rg, inputs, output, 2, uid)); uid += 1; nE += 1
+        units.append(("E:viterbi", "Viterbi", "float64", bool(nE % 2), inputs, rng.choice(outs), 1, uid)); uid += 1; nE += 1
+    for rep in range(6 if th else 2):
+        for sr, dt, rg in combos(False):
+            units.append(("E:mv", sr, dt, rg, [[0, 1], [1]], [0], 8, uid)); uid += 1; nE += 1
+            units.append(("E:mm", sr, dt, rg, [[0, 1], [1, 2]], [0, 2], 8, uid)); uid += 1; nE += 1
+    info["family E units (sum types with an empty summand; result fed back into einsum)"] = nE
     return units, info
+
+
+FAMILIES_BOUND = ("; family B: the same draws with stride-0 (expanded) physical axes at any subset of positions of every operand "
+                  "(every <= 2-operand / <= 3-label signature x every output list, more draws where no label is summed out, plus "
+                  "3-operand signatures of rank <= 2); family E: a label whose type is a sum with an empty summand (0, 0 x 2, 2 x 0 "
+                  "at any position of any decomposition of 0..3) indexed at least once through that physically empty block "
+                  "(<= 2 operands / <= 2 labels / rank <= 2 x every output list, 3-operand sample, mv, mm); in both families the "
+                  "returned tensor is fed back into einsum (transposition, total) and compared with the brute-force result")
 
 
 # ============================================================================= driver
@@ -886,10 +1189,10 @@ def run_bounded(ctx: Ctx) -> Report:
                    ", plus the empty operand list; label sizes in {1,2,3} and one zero-size assignment per unit; "
                    "operands = well-typed patterns from patterns_for_shape (dense, diagonal, SumAxis, unit, stride-0/transposed "
                    "storage, zero-size physical axes) with default = zero or not; x {Real,Log,Viterbi,Bool} x requires_grad x "
-                   "float64 (float32 subset)"),
-        "viterbi": "log_viterbi_einsum_forward on the same signatures (Viterbi semiring, float64, requires_grad on/off)",
-        "mv": "PatternedTensor.mv, sizes in {0,1,2,3}^2, 4 semirings x requires_grad, float64 + float32",
-        "mm": "PatternedTensor.mm, sizes in {0,1,2,3}^3, 4 semirings x requires_grad, float64 + float32",
+                   "float64 (float32 subset)" + FAMILIES_BOUND),
+        "viterbi": "log_viterbi_einsum_forward on the same signatures (Viterbi semiring, float64, requires_grad on/off)" + FAMILIES_BOUND,
+        "mv": "PatternedTensor.mv, sizes in {0,1,2,3}^2, 4 semirings x requires_grad, float64 + float32" + FAMILIES_BOUND,
+        "mm": "PatternedTensor.mm, sizes in {0,1,2,3}^3, 4 semirings x requires_grad, float64 + float32" + FAMILIES_BOUND,
     }
     fnname = {"einsum": "fggs.indices.einsum", "viterbi": "fggs.indices.log_viterbi_einsum_forward",
               "mv": "fggs.indices.PatternedTensor.mv", "mm": "fggs.indices.PatternedTensor.mm"}
